@@ -1373,8 +1373,8 @@ def run(ctx):
   literal_cases(ctx, 70 if quick else 80)
   directed_cases(ctx)
   constant_cases(ctx, 160 if quick else 1000, 4 if quick else 6)
-  loop_cases(ctx, 70 if quick else 800, 2 if quick else 4)
-  random_cases(ctx, 400 if quick else 2500, 6 if quick else 8)
+  loop_cases(ctx, 70 if quick else 600, 2 if quick else 4)
+  random_cases(ctx, 400 if quick else 2200, 6 if quick else 8)
 
 def main(ctx):
   ctx.trusted += ['harness/c10.py prints the same block as Python source and as a Coq term (cross-checked on every block: the number and order of RTLIR nodes of the real tree must match the term)',
@@ -1393,6 +1393,6 @@ def main(ctx):
   except Exception as e:
     ctx.note('correspondence crashed: ' + traceback.format_exc()[-1500:])
     ctx.violation('C10:harness-crash', f'correspondence could not run: {e!r}', {'traceback': traceback.format_exc()}, found_input=False)
-  return ctx.finish(rule='(1) literals 2^k-1,2^k,2^k+1 (k<=70/80) as a Number node, as a loop bound and against a k-bit signal; (2) 30 fixed blocks, one per checker rule / missing check; (2c) 70/800 blocks of 2-3 nested for loops whose slices / indices mix loop variables, offsets, scales and constants on the read and the written side (accepted x[e:e+K] forms and the near misses the checker must reject) + 16 fixed ones; (2b) 160/1000 blocks over free-variable constants (ints, Bits, bitstructs, lists of them with constant and signal index, fields, signal lists) against signals of equal / different width; '
+  return ctx.finish(rule='(1) literals 2^k-1,2^k,2^k+1 (k<=70/80) as a Number node, as a loop bound and against a k-bit signal; (2) 30 fixed blocks, one per checker rule / missing check; (2c) 70/600 blocks of 2-3 nested for loops whose slices / indices mix loop variables, offsets, scales and constants on the read and the written side (accepted x[e:e+K] forms and the near misses the checker must reject) + 16 fixed ones; (2b) 160/1000 blocks over free-variable constants (ints, Bits, bitstructs, lists of them with constant and signal index, fields, signal lists) against signals of equal / different width; '
                          '(3) random type-directed update blocks (1-4 statements, depth<=3, 2-4 inputs and 2-4 outputs of Bits/bitstruct type, wildness 0-25%) each run on 6-8 random inputs; '
                          'distinct = distinct block texts; all non-trivial (every block is type-checked by the real passes, simulated and probed)')
